@@ -31,15 +31,16 @@ variable {Content MetaRec WalRec LogRec TreeAbs : Type} (P : Params Content Meta
 /-- T4.3 **linearisation of a concurrent trace**.  For every concurrent trace `ct` of Begin / End events of effects and
 fsyncs (no well-formedness needed) started on the flushed disk `d0`, the sequential trace `lin d0 ct`
 (i) run in the sequential model of T4.1 reaches the same durable disk and the same list of volatile effects as the
-concurrent machine, (ii) therefore has exactly the same crash images, and (iii) consists of `Ev.fsync` events and of the
-effects begun in `ct`, each once.  For the Rust code: whatever interleaving of `io_uring` completions, `fsyncer` threads
+concurrent machine, (ii) therefore has exactly the same crash images, (iii) consists of `Ev.fsync` events and of the
+effects begun in `ct`, each once, and (iv) the volatile effects are in Begin order (a sub-list of the effects begun).  For the Rust code: whatever interleaving of `io_uring` completions, `fsyncer` threads
 and the sync thread produced the trace, its crash behaviour is that of a sequential trace of the same writes in which
 an fsync that did not cover an overlapping write comes BEFORE that write. -/
 theorem T4_3_linearisation (d0 : Disk Content MetaRec WalRec LogRec) (ct : List (CEv Content MetaRec WalRec LogRec)) :
     run ⟨d0, []⟩ (lin d0 ct) = ⟨(crun (cinit d0) ct).dur, (crun (cinit d0) ct).volEffs⟩ ∧
     (∀ img, IsCImage (crun (cinit d0) ct) img ↔ IsImage (run ⟨d0, []⟩ (lin d0 ct)) img) ∧
-    List.Perm (effsOf (lin d0 ct)) (begun ct) :=
-  ⟨run_lin d0 ct, isCImage_lin d0 ct, lin_perm d0 ct⟩
+    List.Perm (effsOf (lin d0 ct)) (begun ct) ∧
+    List.Sublist (crun (cinit d0) ct).volEffs (begun ct) :=
+  ⟨run_lin d0 ct, isCImage_lin d0 ct, lin_perm d0 ct, by simpa [cinit, CState.volEffs] using volEffs_sublist_begun (cinit d0) ct⟩
 
 /-- T4.3a consequently every per-effect predicate that holds of all effects begun in `ct` (such as `AllowedPre`, the
 placement clause decided by the C17 monitor) holds of all events of the linearisation. -/
